@@ -151,7 +151,7 @@ def check(case, ctx: Ctx):
     qmap = None
     if base["register"].get("mappable"):
         m = case["mapping"]
-        ids = [f"{base['register'].get('prefix', 'q')}{i}" for i in range(m["k"])]
+        ids = build.register_qubit_ids(base['register'])[:m["k"]]
         qmap = {ids[i]: m["traps"][i] for i in m["order"]}
         if not seq.is_parametrized():
             outcomes = []
